@@ -381,6 +381,12 @@ func (l *s1tLin) ensureJoined(gi int, abandoned bool) {
 		}
 	}
 	if g.eng == 2 {
+		if s := l.snd[g.req]; s.pc == 8 && s.writeRes == "closed" {
+			// the sender left through the teardown broadcast (its Write is recorded as connection-closed) before the engine
+			// reported: the record of its return merely comes later
+			l.emit("bl:%d", g.req)
+			s.wres, s.pc = "closed", 9
+		}
 		l.engineFinish(gi, l.pickRes(g.req))
 	}
 	if g.eng == 1 {
@@ -698,6 +704,11 @@ func s1tLinearize(calls []s1tCall, evs []secs1.VerifTraceEv, conn []s1tConnEv, p
 			g := l.g(ev.gen)
 			if g.eng != 2 || g.req != ev.call {
 				l.fail("a block of sender %d (pinned generation %d, pc %d) went out on the socket of generation %d, whose engine is not transmitting that request in the linearization", ev.call, s.ep, s.pc, ev.gen)
+			} else if ev.ak && s.acked == s.nblk {
+				// the last block is ACKed: runSend returns nil and the engine reports at once (req.done <- nil), before anything
+				// else it does — in particular before it can notice a dropped line.  A sender that then leaves Write through the
+				// teardown broadcast although this report is in is rejected by the model (`bl` is disabled).
+				l.engineFinish(ev.gen, "ok")
 			}
 		case "write-end":
 			i, ok := senderOf[ev.call]
